@@ -44,7 +44,7 @@ def tight(kw, **extra):
 
 def limited(kw, **extra):
     """plenty of machines and arrays but a small ingest-machine limit that overlapping ingests run into"""
-    a = dict(min_obs=3, limit_binds=True, modes=('roomy',), start_gaps=(0, 1, 2, 3), max_duration=10)
+    a = dict(min_obs=3, limit_binds=True, modes=('roomy',), start_gaps=(0, 1, 2, 3), max_duration=10, b2b=True)
     a.update(kw)
     a['max_machines'] = max(a.get('max_machines', 6), 6)
     a.update(extra)
